@@ -1136,7 +1136,8 @@ static void l_on_cb(struct lsub *s, int which, short what)
 		if (what & BEV_EVENT_CONNECTED) {
 			vh_stat("connected_events");
 			if (s->n_connected++) l_viol(s, "connected-twice", "second BEV_EVENT_CONNECTED");
-			else if (s->datacb_early) l_viol(s, s->datacb_early & 2 ? (s->kind == LK_UNIX_OK ? "data-callback-before-connected:write:immediate-connect" : "data-callback-before-connected:write") : "data-callback-before-connected:read",
+			else if (s->datacb_early) l_viol(s, s->datacb_early & 2 ? (s->kind == LK_UNIX_OK ? "data-callback-before-connected:write:immediate-connect" : "data-callback-before-connected:write") :
+			    ((s->opts & BEV_OPT_DEFER_CALLBACKS) ? "data-callback-before-connected:read:deferred" : "data-callback-before-connected:read:non-deferred"),
 			    "a %s callback ran before BEV_EVENT_CONNECTED of the same connection", s->datacb_early & 2 ? "write" : "read");
 			if (what & ~BEV_EVENT_CONNECTED) vh_stat("connected_merged_with_other_flags");
 			s->connecting = 0;
@@ -1374,7 +1375,16 @@ static void l_create(vh_rng *r)
 		rc = bufferevent_socket_connect_hostname(s->bev, l_dns, vh_chance(r, 3, 4) ? AF_INET : AF_UNSPEC, host, s->port);
 		vh_stat("hostname_connects");
 		if (kind != LK_HOST_NUMERIC) l_pending_lookups++;
-		if (kind == LK_HOST_CANCEL) { vh_stat("lookups_cancelled_by_free"); if (vh_chance(r, 1, 2)) { l_dns_serve(); } l_free(s); }
+		if (kind == LK_HOST_CANCEL) {
+			if (vh_chance(r, 1, 2)) l_dns_serve();
+			if (vh_chance(r, 1, 2)) { vh_stat("lookups_cancelled_by_free"); l_free(s); }
+			else {
+				/* replacing the fd cancels the lookup (EVUTIL_EAI_CANCEL): no event may follow */
+				vh_stat("lookups_cancelled_by_setfd"); desc("setfd%d;", s->id);
+				bufferevent_setfd(s->bev, -1);
+				s->connecting = 0; s->term[0] = s->term[1] = 1;
+			}
+		}
 		break; }
 	}
 	vh_stat("connect_attempts");
